@@ -86,6 +86,11 @@ type c42Scenario struct {
 	DepthQ    int
 	DepthT    int
 	Props     []string // properties whose oracles are judged in this scenario
+	// AvoidKnown prunes (in the enumeration only, never in the oracle) the
+	// events at which the unchanged client is known to leave the statement
+	// (see claims.json: D2, D3), so that the histories around them are still
+	// explored in depth. The strict scenarios keep reporting those.
+	AvoidKnown bool
 }
 
 // ---- expectations ----
@@ -112,7 +117,8 @@ type c42ReqExp struct {
 
 type c42CbExp struct {
 	c42Cb
-	Opt bool // the statement permits but does not require this callback
+	Opt  bool // the statement permits but does not require this callback
+	Gate bool // produced by a response: its onDone gates the next read
 }
 
 type c42Exp struct {
@@ -525,6 +531,13 @@ func (m *c42Model) connFailure(srv int) {
 		// "only when the active server's stream failed", so no channel may
 		// appear; whether the watchers hear about it is not stated.
 		m.feat("conn-failure-on-non-active-server")
+		if m.uncachedExists() {
+			for j := srv + 1; j < m.sc.NServers; j++ {
+				if !m.ch[j].exists {
+					m.feat("dev:non-active-failure-with-spare-server")
+				}
+			}
+		}
 		m.propagateConnErr(true)
 		return
 	}
@@ -707,6 +720,9 @@ func (m *c42Model) readResp(srv int, it c42Item) {
 	}
 	if m.sc.Slow >= 0 {
 		if n := len(m.exp.Cbs[m.sc.Slow]) - slowBefore; n > 0 {
+			for i := slowBefore; i < len(m.exp.Cbs[m.sc.Slow]); i++ {
+				m.exp.Cbs[m.sc.Slow][i].Gate = true
+			}
 			c.gate += n
 			m.feat("flow-control:onDone-held")
 		}
@@ -736,6 +752,7 @@ func (m *c42Model) watch(w int) {
 		}
 		if m.active > 0 {
 			m.feat("watch-new-resource-while-on-fallback")
+			m.feat("dev:watch-new-resource-while-on-fallback")
 		}
 	} else {
 		m.feat("watch:additional-watcher")
